@@ -28,7 +28,7 @@ for d in sorted(os.listdir(R+'/seeded')):
 missed=sum(1 for _,m in metas if m['detection_status'].startswith('MISSED'))
 res=open(R+'/seeded/RESULTS.txt', errors='replace').read().strip().splitlines()[-1] if os.path.exists(R+'/seeded/RESULTS.txt') else 'not run'
 out+='''
-### 8.7 Independently seeded changes (seeded/<id>[-b|-c]/, three rounds of 20)
+### 8.7 Independently seeded changes (seeded/<id>[-b|-c|-d|...]/, rounds of 20)
 
 Each was written by a fresh sub-agent that saw only the property text (rounds 2 and 3: plus one line per
 earlier change for that property, to force a different kind) and its own scratch worktree of /repo — nothing
@@ -38,7 +38,10 @@ tests pass with it and that its demonstration fails with it and passes without i
 quick; git -C /repo checkout -- .); last result: **%s** (seeded/RESULTS.txt).
 %d of the %d changes were MISSED by the version of the check that existed when the change arrived; every
 miss led to a general strengthening (a new clause or a wider menu, described in the last column and in 8.5),
-never to a special case for that patch, and no check was loosened.
+never to a special case for that patch, and no check was loosened. One change (C14-d: `Translate(src[:0], src)`
+breaks because dst is zero-filled before src is read) is deliberately NOT detected: overlapping dst and src is
+outside the statement, other append-style functions of the package do not support it on the pinned tree
+either, and demanding it would raise an alarm on a correct implementation that pre-grows dst.
 
 | id | change | needs to manifest | caught by clause | history |
 |---|---|---|---|---|
